@@ -396,7 +396,7 @@ impl Hist {
     fn desc(&mut self) -> String { self.serial += 1; format!("d{}", self.serial) }
 
     /// 1–3 rewrite actions on `mut_repo` (whose base is `base`), then rebase descendants
-    fn actions(&mut self, r: &mut Rng, base: &Arc<ReadonlyRepo>, mut_repo: &mut MutableRepo, out: &mut Out) {
+    fn actions(&mut self, r: &mut Rng, base: &Arc<ReadonlyRepo>, mut_repo: &mut MutableRepo, out: &mut Out) -> bool {
         let root = base.store().root_commit_id().clone();
         let vis = visible(base);
         let nonroot: Vec<&Commit> = vis.iter().filter(|c| *c.id() != root).collect();
@@ -481,15 +481,21 @@ impl Hist {
                 }
             }
         }
-        self.rebase(mut_repo);
+        self.rebase(mut_repo)
     }
 
-    fn rebase(&mut self, mut_repo: &mut MutableRepo) {
+    /// `false`: the rebase of descendants would recreate a commit that already exists (possible here because the
+    /// commit timestamp is fixed: e.g. abandon, restore, abandon again) and jj refused ("Newly-created commit …
+    /// already exists"); the caller ends the history there.
+    fn rebase(&mut self, mut_repo: &mut MutableRepo) -> bool {
         let mut rebased: Vec<(Commit, Commit)> = vec![];
-        mut_repo.rebase_descendants_with_options(&RevsetExpression::none(), &RebaseOptions::default(), |old, new| {
+        let res = mut_repo.rebase_descendants_with_options(&RevsetExpression::none(), &RebaseOptions::default(), |old, new| {
             if let RebasedCommit::Rewritten(n) = new { rebased.push((old, n)); }
-        }).block_on().unwrap();
-        for (old, new) in rebased { self.record(&new, &[old.id().clone()]); }
+        }).block_on();
+        match res {
+            Ok(()) => { for (old, new) in rebased { self.record(&new, &[old.id().clone()]); } true }
+            Err(e) => { assert!(format!("{e}").contains("already exists"), "unexpected rebase error: {e}"); false }
+        }
     }
 
     fn start_tx(&mut self, base: &Arc<ReadonlyRepo>, skew: i64) -> Transaction {
@@ -506,14 +512,14 @@ fn real_histories(cfg: &Cfg, out: &mut Out) {
         let mut hist = Hist { repo: repo.clone(), _test_repo: test_repo, names: Names::default(), truth: BTreeMap::new(), serial: h * 1000, clock: 1, past: vec![repo.clone()] };
         hist.names.add(repo.store().root_commit_id());
         let n_steps = r.range(2, 9);
-        for _step in 0..n_steps {
+        'steps: for _step in 0..n_steps {
             hist.clock += 2;
             let base = hist.repo.clone();
             let kind = r.below(10);
             let mut step_kind = "linear";
             if kind < 5 || hist.past.len() < 3 {
                 let mut tx = hist.start_tx(&base, 0);
-                hist.actions(&mut r, &base, tx.repo_mut(), out);
+                if !hist.actions(&mut r, &base, tx.repo_mut(), out) { out.tally("step", "ended-identical-commit"); break 'steps; }
                 hist.repo = tx.commit("linear").block_on().unwrap();
             } else if kind < 8 {
                 // concurrent operations on the same base, merged
@@ -523,18 +529,21 @@ fn real_histories(cfg: &Cfg, out: &mut Out) {
                 for _ in 0..k {
                     let skew = r.range(0, 1) as i64;
                     let mut tx = hist.start_tx(&base, skew);
-                    hist.actions(&mut r, &base, tx.repo_mut(), out);
+                    if !hist.actions(&mut r, &base, tx.repo_mut(), out) { out.tally("step", "ended-identical-commit"); break 'steps; }
                     sides.push(tx.commit("side").block_on().unwrap());
                 }
                 hist.clock += 2;
                 if r.chance(1, 2) {
                     // the real reconciliation path
                     step_kind = "concurrent-load-at-head";
-                    hist.repo = base.loader().load_at_head().block_on().unwrap();
+                    match base.loader().load_at_head().block_on() {
+                        Ok(repo) => hist.repo = repo,
+                        Err(e) => { assert!(format!("{e:?}").contains("already exists"), "unexpected error: {e:?}"); out.tally("step", "ended-identical-commit"); break 'steps; }
+                    }
                 } else {
                     let mut tx = hist.start_tx(&sides[0], 0);
                     for s in &sides[1..] { tx.merge_operation(base.operation(), s.operation()).block_on().unwrap(); }
-                    hist.rebase(tx.repo_mut());
+                    if !hist.rebase(tx.repo_mut()) { out.tally("step", "ended-identical-commit"); break 'steps; }
                     hist.repo = tx.commit("merge").block_on().unwrap();
                 }
                 hist.past.extend(sides);
@@ -544,7 +553,7 @@ fn real_histories(cfg: &Cfg, out: &mut Out) {
                 let old = r.pick(&hist.past).clone();
                 let mut tx = hist.start_tx(&base, 0);
                 tx.repo_mut().set_view(old.view().store_view().clone());
-                hist.rebase(tx.repo_mut());
+                if !hist.rebase(tx.repo_mut()) { out.tally("step", "ended-identical-commit"); break 'steps; }
                 hist.repo = tx.commit("restore").block_on().unwrap();
             } else {
                 // `op revert` of an earlier non-merge operation
@@ -556,7 +565,7 @@ fn real_histories(cfg: &Cfg, out: &mut Out) {
                 let parent = base.loader().load_at(&parent_op).block_on().unwrap();
                 let mut tx = hist.start_tx(&base, 0);
                 tx.repo_mut().merge(&bad, &parent).block_on().unwrap();
-                hist.rebase(tx.repo_mut());
+                if !hist.rebase(tx.repo_mut()) { out.tally("step", "ended-identical-commit"); break 'steps; }
                 hist.repo = tx.commit("revert").block_on().unwrap();
             }
             out.tally("step", step_kind);
